@@ -13,6 +13,13 @@ Proof. unfold adel. cbn [filter fst]. rewrite N.eqb_refl. reflexivity. Qed.
 Lemma aget_single {A} k (v : A) : aget [(k, v)] k = Some v.
 Proof. cbn [aget]. rewrite N.eqb_refl. reflexivity. Qed.
 
+Lemma learned_role_kept' s s1 : learned s s1 ->
+  (forall g, gproc s = Some g -> gproc s1 = Some g) /\ pp s1 = pp s.
+Proof.
+  intros [->|(g & _ & [[E ->]|[[E ->]|[[_ ->]|[_ ->]]]])]; split; try reflexivity; intros g' Hg'; bcsimpl;
+    try assumption; congruence.
+Qed.
+
 (* no resend in progress or announced *)
 Definition re_idle (t : re_st) : Prop :=
   re_stage t = [] /\ (re_todo t = [] \/ exists g, re_todo t = [(g, [])]).
@@ -65,5 +72,170 @@ Proof.
   (* idle before and after, scanner state untouched *)
   all: try (cbn [re_step]; eexists; split; [reflexivity|]; unfold R_re; bcsimpl; exact HR'; fail).
   all: try (rewrite re_step_tx_idle by (exact HR' || exact I); eexists; split; [reflexivity|]; unfold R_re; bcsimpl; exact HR'; fail).
-  all: match goal with |- ?G => idtac G end.
-Abort.
+  all: try (cbn [re_step]; eexists; split; [reflexivity|]; unfold R_re; bcsimpl;
+            cbn [re_stage re_todo re_clean re_resumed]; first [apply idle_of_empty; tauto|tauto]; fail).
+  - (* Rx Connect *)
+    cbn [re_step]. eexists; split; [reflexivity|]. unfold R_re; bcsimpl; cbn [re_stage re_todo re_clean re_resumed].
+    destruct HR' as [S0 T0]. repeat split; try assumption. exists g. split; [exact Hr|apply aget_aput_same].
+  - (* Deny: Connack 5 *)
+    destruct HR' as [S0 T0]. cbn [re_step]. rewrite T0. cbn [aget]. eexists; split; [reflexivity|].
+    unfold R_re; bcsimpl. apply idle_of_empty; assumption.
+  - destruct HR' as [S0 T0]. cbn [re_step]. rewrite T0. cbn [aget]. eexists; split; [reflexivity|].
+    unfold R_re; bcsimpl. apply idle_of_empty; assumption.
+  - (* Setup ok *)
+    destruct HR' as (S0 & T0 & g' & G & A). rewrite Hr in G. injection G as <-.
+    cbn [re_step]. eexists; split; [reflexivity|].
+    destruct fresh; unfold R_re; bcsimpl; cbn [re_stage re_todo re_clean re_resumed];
+      (repeat split; try assumption; exists g; split; [exact Hr|split; [exact A|apply aget_aput_same]]).
+  - (* Connack ok *)
+    destruct HR' as (S0 & T0 & g' & G & A & B). rewrite Hr in G. injection G as <-.
+    cbn [re_step]. rewrite A, B.
+    match goal with Hq : Bool.eqb _ _ = true |- _ => rewrite Hq end.
+    eexists; split; [reflexivity|]. unfold R_re; bcsimpl; cbn [re_stage re_todo re_clean re_resumed].
+    split; [exact T0|]. exists g. split; [exact Hr|rewrite S0; reflexivity].
+  - (* Connack fail *)
+    destruct HR' as (S0 & T0 & g' & G & A & B). rewrite Hr in G. injection G as <-.
+    cbn [re_step]. rewrite A, B.
+    match goal with Hq : Bool.eqb _ _ = true |- _ => rewrite Hq end.
+    eexists; split; [reflexivity|]. unfold R_re; bcsimpl. apply idle_of_empty; assumption.
+  - (* All ok *)
+    destruct HR' as (T0 & g' & G & S0). rewrite Hr in G. injection G as <-.
+    cbn [re_step]. rewrite S0, aget_single, adel_single, T0. eexists; split; [reflexivity|].
+    destruct l; unfold R_re; bcsimpl; cbn [re_stage re_todo re_clean re_resumed map].
+    + split; [reflexivity|right; exists g; reflexivity].
+    + split; [reflexivity|exists g; split; [exact Hr|reflexivity]].
+  - (* All err *)
+    destruct HR' as (T0 & g' & G & S0). rewrite Hr in G. injection G as <-.
+    cbn [re_step]. rewrite S0, aget_single, adel_single. eexists; split; [reflexivity|].
+    unfold R_re; bcsimpl; cbn [re_stage re_todo]. apply idle_of_empty; [reflexivity|exact T0].
+  - (* Resend ok *)
+    destruct HR' as (S0 & g' & G & T0). rewrite Hr in G. injection G as <-.
+    destruct Hrs as [Hst _]. inversion Hst as [|? ? Hp Hl]; subst.
+    assert (Hn : not_connack0 p0).
+    { apply storable_not_connack0. eapply packet_eqb_storable; [eassumption|apply storable_set_dup; exact Hp]. }
+    assert (E : re_step t (ETx g p0 true true) =
+                Some (ReSt (re_clean t) (re_resumed t) (re_stage t) (aput (re_todo t) g (map set_dup l)))).
+    { destruct p0; cbn [re_step]; try (destruct rc; [contradiction|]); rewrite T0, aget_single; cbn [map];
+        match goal with Hq : packet_eqb _ _ = true |- _ => rewrite Hq end; reflexivity. }
+    rewrite E, T0. cbn [map]. rewrite aput_single. eexists; split; [reflexivity|].
+    unfold take_deq_if_any, take_deq. destruct (0 <? tdeq s); destruct l; unfold R_re; bcsimpl;
+      cbn [re_stage re_todo re_clean re_resumed map];
+      first [split; [exact S0|right; exists g; reflexivity]|split; [exact S0|exists g; split; [exact Hr|reflexivity]]].
+  - (* Resend fail *)
+    destruct HR' as (S0 & g' & G & T0). rewrite Hr in G. injection G as <-.
+    destruct Hrs as [Hst _]. inversion Hst as [|? ? Hp Hl]; subst.
+    assert (Hn : not_connack0 p0).
+    { apply storable_not_connack0. eapply packet_eqb_storable; [eassumption|apply storable_set_dup; exact Hp]. }
+    assert (E : re_step t (ETx g p0 true false) =
+                Some (ReSt (re_clean t) (re_resumed t) (re_stage t) (adel (re_todo t) g))).
+    { destruct p0; cbn [re_step]; try (destruct rc; [contradiction|]); rewrite T0, aget_single; cbn [map];
+        match goal with Hq : packet_eqb _ _ = true |- _ => rewrite Hq end; reflexivity. }
+    rewrite E, T0. cbn [map]. rewrite adel_single. eexists; split; [reflexivity|].
+    unfold take_deq_if_any, take_deq. destruct (0 <? tdeq s); unfold R_re; bcsimpl;
+      cbn [re_stage re_todo]; (apply idle_of_empty; [exact S0|reflexivity]).
+  - (* Restore ok *)
+    destruct HR' as [S0 T0]. cbn [re_step].
+    assert (E : match aget (re_todo t) g with Some (_ :: _) => False | _ => True end).
+    { destruct T0 as [->|(g' & ->)]; cbn [aget]; [exact I|]. destruct (g =? g'); exact I. }
+    destruct (aget (re_todo t) g) as [[|q rest]|]; try contradiction;
+      (eexists; split; [reflexivity|]; unfold R_re; bcsimpl; split; assumption).
+  - destruct HR' as [S0 T0]. cbn [re_step].
+    assert (E : match aget (re_todo t) g with Some (_ :: _) => False | _ => True end).
+    { destruct T0 as [->|(g' & ->)]; cbn [aget]; [exact I|]. destruct (g =? g'); exact I. }
+    destruct (aget (re_todo t) g) as [[|q rest]|]; try contradiction;
+      (eexists; split; [reflexivity|]; unfold R_re; bcsimpl; split; assumption).
+Qed.
+
+Lemma re_busy_idle t : re_idle t -> re_busy t = false.
+Proof.
+  intros [Hs Ht]. unfold re_busy. rewrite Hs. destruct Ht as [->|(g & ->)]; reflexivity.
+Qed.
+
+Lemma re_deq s t e s' : INV s -> R_re s t -> step_deq s e = Some s' ->
+  exists t', re_step t e = Some t' /\ R_re s' t'.
+Proof.
+  intros HI HR H. pose proof (I_shape _ HI) as Hsh.
+  assert (Hidle : re_idle t).
+  { apply (re_not_pre s t HR). destruct (pre_loop (pp s)) eqn:Ep; [|reflexivity].
+    destruct (I_pre _ HI Ep) as [Hd _]. unfold step_deq, guard in H. rewrite Hd in H. discriminate H. }
+  unfold step_deq, guard in H.
+  inv_step H; inv_helpers; injection H as <-; subst; cbn [dp_shape] in Hsh.
+  all: try (cbn [re_step]; eexists; split; [reflexivity|]; (eapply re_frame; [| |exact HR]); reflexivity).
+  - (* DeqCall *) cbn [re_step]. rewrite (re_busy_idle _ Hidle). eexists; split; [reflexivity|].
+    (eapply re_frame; [| |exact HR]); reflexivity.
+  - (* Send ok *) destruct Hsh as (m & id & ->).
+    match goal with Hq : packet_eqb _ _ = true |- _ => apply packet_eqb_publish_l in Hq; subst end.
+    rewrite re_step_tx_idle by (exact Hidle || exact I). eexists; split; [reflexivity|].
+    destruct (m_qos m =? 0); (eapply re_frame; [| |exact HR]); reflexivity.
+  - destruct Hsh as (m & id & ->).
+    match goal with Hq : packet_eqb _ _ = true |- _ => apply packet_eqb_publish_l in Hq; subst end.
+    rewrite re_step_tx_idle by (exact Hidle || exact I). eexists; split; [reflexivity|].
+    (eapply re_frame; [| |exact HR]); reflexivity.
+Qed.
+
+Lemma re_same s s' t : same_pd s s' -> R_re s t -> R_re s' t.
+Proof. intros Hs. apply re_frame; [apply (sp_pp _ _ Hs)|apply (sp_gproc _ _ Hs)]. Qed.
+
+Lemma re_frozen s s' t : frozen s s' -> R_re s t -> R_re s' t.
+Proof.
+  intros Hf HR. unfold R_re. rewrite (fz_pp _ _ Hf). apply (re_not_pre s t HR).
+  pose proof (fz_stop _ _ Hf) as Hst. unfold all_stopped, proc_can_stop in Hst.
+  destruct (pp s); cbn [pre_loop]; try reflexivity; discriminate Hst.
+Qed.
+
+Lemma re_learned s s1 t : learned s s1 -> R_re s t -> R_re s1 t.
+Proof.
+  intros Hl HR. destruct (learned_role_kept' _ _ Hl) as [Kp Ep].
+  unfold R_re in *. rewrite Ep. destruct (pp s); try exact HR.
+  - destruct HR as (S0 & T0 & g & G & A). repeat split; try assumption. exists g. split; [apply Kp; exact G|exact A].
+  - destruct HR as (S0 & T0 & g & G & A). repeat split; try assumption. exists g. split; [apply Kp; exact G|exact A].
+  - destruct HR as (S0 & T0 & g & G & A). repeat split; try assumption. exists g. split; [apply Kp; exact G|exact A].
+  - destruct HR as (T0 & g & G & A). split; [exact T0|]. exists g. split; [apply Kp; exact G|exact A].
+  - destruct HR as (S0 & g & G & A). split; [exact S0|]. exists g. split; [apply Kp; exact G|exact A].
+Qed.
+
+Lemma re_step_clo t e : clo_event e -> re_step t e = Some t.
+Proof. destruct e; try contradiction; reflexivity. Qed.
+
+Lemma re_step_cl t e : cl_event e -> re_step t e = Some t.
+Proof. destruct e; try contradiction; reflexivity. Qed.
+
+Lemma ack_not_connack0 p : is_ack_packet p = true -> not_connack0 p.
+Proof. destruct p; try discriminate; intros _; exact I. Qed.
+
+Lemma re_step_ok s t e s' : INV s -> R_re s t -> step s e = Some s' ->
+  exists t', re_step t e = Some t' /\ R_re s' t'.
+Proof.
+  intros HI HR H. apply step_inv in H.
+  destruct H as [He Ho ->|He Ho ->|He Hq ->|Hc|g s1 Hg Hl Hr Ho Hp|g s1 Hg Hl Hr Ho Hnp Hd
+                |g s1 Hg Hl Hr Ho Hnp Hnd Ha|g s1 Hg Hl Hr Ho Hc|He Hc|g He Ho ->].
+  - subst e. eexists. split; [reflexivity|]. unfold R_re. bcsimpl. split; reflexivity.
+  - subst e. exists t. split; [reflexivity|exact HR].
+  - subst e. exists t. split; [reflexivity|exact HR].
+  - apply step_clo_sum in Hc as (He & Hs & _). exists t. split; [apply re_step_clo; exact He|eapply re_same; eassumption].
+  - eapply re_proc; [eapply INV_learned; eassumption|exact (re_learned _ _ _ Hl HR)|exact Hg|exact Hr|exact Hp].
+  - eapply re_deq; [eapply INV_learned; eassumption|exact (re_learned _ _ _ Hl HR)|exact Hd].
+  - pose proof (INV_learned _ _ Hl HI) as HI1. pose proof (re_learned _ _ _ Hl HR) as HR1.
+    pose proof (step_ack_sum _ _ _ Ha) as (Hs & _ & He).
+    exists t. split; [|eapply re_same; [exact Hs|exact HR1]].
+    destruct e; try contradiction; try reflexivity.
+    destruct async; [|contradiction]. destruct He as (q' & Ht & _ & Hap).
+    apply re_step_tx_idle.
+    + apply (re_not_pre s1 t HR1). destruct (pre_loop (pp s1)) eqn:Ep; [|reflexivity].
+      destruct (I_pre _ HI1 Ep) as [_ Hoff]. rewrite Hoff in Hap. discriminate Hap.
+    + apply ack_not_connack0. eapply ackq_take_is_ack; [exact Ht|apply (I_ackq _ HI1)].
+  - pose proof (re_learned _ _ _ Hl HR) as HR1.
+    apply step_cleanup_sum in Hc as (He & [(Hs & _)|Hf]); exists t; (split; [apply re_step_cl; exact He|]).
+    + eapply re_same; [exact Hs|exact HR1].
+    + eapply re_frozen; [exact Hf|exact HR1].
+  - apply step_cleanup_sum in Hc as (He' & [(Hs & _)|Hf]); exists t; (split; [apply re_step_cl; exact He'|]).
+    + eapply re_same; eassumption.
+    + eapply re_frozen; eassumption.
+  - subst e. exists t. split; [reflexivity|]. (eapply re_frame; [| |exact HR]); reflexivity.
+Qed.
+
+Theorem c08_resend_holds : forall es s, bc_run es = Some s -> c08_resend es = true.
+Proof.
+  apply (scan_sound_inv re_step INV R_re INV_init INV_step re_step_ok).
+  unfold R_re. cbn. split; [reflexivity|left; reflexivity].
+Qed.
